@@ -386,6 +386,10 @@ class CircuitCompositeOperation(ICircuitCompositeOperation):
         """:return: Array-like of all operations that are of instance ICircuitCompositeOperation."""
         result: List[ICircuitCompositeOperation] = []
         for node in self._circuit_graph.get_node_iterator():
+            # Apply relation-link head (as done when decomposing), such that nested composite-operations
+            # report the same times whether or not the operations were decomposed before
+            if not node.operation.has_relation:
+                node.operation.relation_link = self.relation_link
             if isinstance(node.operation, CircuitCompositeOperation):
                 result.append(node.operation)
                 result.extend(node.operation.get_sub_composite_operations())
